@@ -127,6 +127,25 @@ class Reflector:
         self.value_defs = {}     # local name -> [(kind, expr)]: every way the local gets a value
         self._tok_busy = set()
         self._tok_cache = {}
+        self.idents = None
+        mod = getattr(func, "_module", None) if func is not None else None
+        if mod is not None:
+            cache = mod.__dict__.setdefault("_all_idents", None)
+            if cache is None:
+                cache = set()
+                for n_ in ast.walk(mod.tree):
+                    if isinstance(n_, ast.Name):
+                        cache.add(n_.id)
+                    elif isinstance(n_, ast.Attribute):
+                        cache.add(n_.attr)
+                    elif isinstance(n_, (ast.FunctionDef, ast.ClassDef)):
+                        cache.add(n_.name)
+                    elif isinstance(n_, ast.arg):
+                        cache.add(n_.arg)
+                    elif isinstance(n_, ast.keyword) and n_.arg:
+                        cache.add(n_.arg)
+                mod.__dict__["_all_idents"] = cache
+            self.idents = cache
         if func is not None:
             for i, a in enumerate(func.args.args):
                 self.params[a.arg] = "self" if a.arg in ("self", "cls") else "$%d" % i
@@ -405,7 +424,14 @@ class Reflector:
         return "O"
 
     def dn(self, name):
-        return dual_ident(name, self.r.extra_dual) if self.mirror else name
+        if not self.mirror:
+            return name
+        d = dual_ident(name, self.r.extra_dual)
+        # an identifier is side-specific only if its dual exists too (polya_pos / polyt_pos); `polya_confirmed` without a
+        # `polyt_confirmed` anywhere in the module is a side-neutral name that merely contains the word
+        if d != name and self.idents is not None and d not in self.idents and name not in (self.r.extra_dual or {}):
+            return name
+        return d
 
     # ---------------- linear forms over canonical atoms
     def lin(self, e, neg_coords=True):
